@@ -225,6 +225,15 @@ func (r *Report) finish(verifDir string, t0 time.Time, seed int, cmdline string,
 			}
 		}
 	}
+	if r.Assumptions == nil {
+		r.Assumptions = []string{}
+	}
+	if r.Trusted == nil {
+		r.Trusted = []string{}
+	}
+	if r.Notes == nil {
+		r.Notes = []string{}
+	}
 	fnames := make([]string, 0, len(r.funcs))
 	for f := range r.funcs {
 		fnames = append(fnames, f)
